@@ -144,6 +144,39 @@ fn gen_matrix(seed: u64) -> (Vec<Vec<i64>>, bool) {
     (matrix, errors)
 }
 
+/// larger populations and more cases than the small-scope generator produces (a size-dependent
+/// fast path must not hide behind it); the law is still exact (all m! orders, m <= 8)
+fn gen_large(seed: u64, k: u64) -> (Vec<Vec<i64>>, bool) {
+    let mut x = seed ^ k.wrapping_mul(0xA24B_AED4_963E_E407);
+    let mut next = move || {
+        x = x.wrapping_add(0x9E37_79B9_7F4A_7C15);
+        splitmix(x)
+    };
+    let errors = next() % 2 == 0;
+    let n = [12usize, 20, 33, 40, 64, 100][(k % 6) as usize];
+    let m = [6usize, 7, 8, 6, 7, 8, 7][(k % 7) as usize];
+    let style = next() % 3;
+    let mut matrix = vec![vec![0i64; m]; n];
+    for (i, row) in matrix.iter_mut().enumerate() {
+        for (j, v) in row.iter_mut().enumerate() {
+            *v = match style {
+                0 => {
+                    let good = i % m == j;
+                    if good != errors { 3 } else { (next() % 3) as i64 }
+                }
+                1 => (next() % 2) as i64,
+                _ => (next() % 4) as i64,
+            };
+        }
+    }
+    for i in 1..n {
+        if next() % 5 == 0 {
+            matrix[i] = matrix[(next() % i as u64) as usize].clone();
+        }
+    }
+    (matrix, errors)
+}
+
 fn run_lexicase<R: Res + From<i64>>(pop: &Pop<R>, c: usize, trials: u64, seed: u64, name: &str, matrix: &[Vec<i64>], errors: bool, law: &[f64]) -> Result<Vec<u64>, Fail> {
     let lex = Lexicase::new(c);
     let mut rng = StdRng::seed_from_u64(seed);
@@ -172,18 +205,18 @@ fn run_lexicase<R: Res + From<i64>>(pop: &Pop<R>, c: usize, trials: u64, seed: u
     Ok(counts)
 }
 
-fn jobs(seed: u64, n_matrices: u64) -> (Vec<Job>, Vec<Value>, usize, usize) {
+fn jobs(seed: u64, n_matrices: u64, n_large: u64) -> (Vec<Job>, Vec<Value>, usize, usize) {
     let mut n_discriminating = 0usize;
     let mut n_partial = 0usize;
     let mut jobs = vec![];
     let mut descr = vec![];
-    for k in 0..n_matrices {
+    for k in 0..n_matrices + n_large {
         let ms = splitmix(seed ^ 0xC08) ^ k.wrapping_mul(0x9E37);
-        let (matrix, errors) = gen_matrix(ms);
+        let (matrix, errors) = if k < n_matrices { gen_matrix(ms) } else { gen_large(ms, k - n_matrices) };
         let n = matrix.len();
         let m = matrix.first().map_or(0, Vec::len);
         // configured case count: mostly all results, otherwise fewer (0 included)
-        let c = if m == 0 || splitmix(ms ^ 0xCC) % 5 < 3 { m } else { (splitmix(ms ^ 0xCD) % m as u64) as usize };
+        let c = if m == 0 || splitmix(ms ^ 0xCC) % 5 < 3 { m } else if k < n_matrices { (splitmix(ms ^ 0xCD) % m as u64) as usize } else { m - 1 - (splitmix(ms ^ 0xCD) % 2) as usize };
         n_partial += usize::from(c < m);
         let rd = readings(&matrix, errors, c);
         let law = rd[0].1.clone();
@@ -231,9 +264,10 @@ fn jobs(seed: u64, n_matrices: u64) -> (Vec<Job>, Vec<Value>, usize, usize) {
 
 pub fn run(ctx: &mut Ctx) {
     let (n_matrices, trials) = ctx.tier.pick((400u64, 400_000u64), (8_000, 2_000_000));
-    ctx.rule = format!("{n_matrices} generated result matrices (1..8 individuals x 0..5 cases, values 0..3, specialists / heavy ties / groups of exact copies / singleton / zero cases, both polarities), configured case count = number of results in 3 of 5 matrices and a smaller count (0 included) otherwise; {trials} seeded draws each through the real Lexicase. Oracle: the exact law P(i) = sum over all case orders [i survives] / (|survivors| * c!) with an independent definition of 'better'; every draw: P(winner) > 0 (never dominated) exactly; frequencies by the Chernoff/KL rule. non-trivial = a (matrix, individual) statistic with 0 < p < 1");
+    let n_large = ctx.tier.pick(12u64, 120);
+    ctx.rule = format!("{n_matrices} generated result matrices (1..8 individuals x 0..5 cases, values 0..3, specialists / heavy ties / groups of exact copies / singleton / zero cases, both polarities), plus {n_large} larger ones (12..100 individuals x 6..8 cases), configured case count = number of results in 3 of 5 matrices and a smaller count (0 included) otherwise; {trials} seeded draws each through the real Lexicase. Oracle: the exact law P(i) = sum over all case orders [i survives] / (|survivors| * c!) with an independent definition of 'better'; every draw: P(winner) > 0 (never dominated) exactly; frequencies by the Chernoff/KL rule. non-trivial = a (matrix, individual) statistic with 0 < p < 1");
     ctx.assumptions.push("for a configured case count c smaller than the number of results the statement does not say which c cases are considered: the law of every fixed c-subset and of a uniformly random c-subset are all accepted (the observed frequencies are judged against the reading that fits them best), and a winner only has to be possible under one of them".into());
-    let (jobs, descr, discriminating, partial) = jobs(ctx.seed, n_matrices);
+    let (jobs, descr, discriminating, partial) = jobs(ctx.seed, n_matrices, n_large);
     ctx.extra.insert("matrices_with_fewer_configured_cases_than_results".into(), json!(partial));
     ctx.extra.insert("sample_matrices".into(), json!(descr));
     ctx.extra.insert("matrices_whose_law_differs_from_no_shuffle_and_first_case_only".into(), json!(discriminating));
